@@ -375,12 +375,21 @@ func (res *Response) sendfileSource(c net.Conn, r io.Reader) (*os.File, int64, s
 	if !ok {
 		return nil, 0, nil
 	}
-	res.WriteHeader(http.StatusOK)
-	res.checkChunked()
-	if res.chunked {
+	// look before deciding: status and framing are only settled here when the
+	// fast path is taken, otherwise that is left to Write.
+	if res.chunkChecked {
+		if res.chunked {
+			return nil, 0, nil
+		}
+	} else if len(res.header[transferEncodingHeader]) > 0 || len(res.header[trailerHeader]) > 0 {
 		return nil, 0, nil
 	}
 	if cl, err := res.contentLength(); err != nil || cl <= 0 {
+		return nil, 0, nil
+	}
+	res.WriteHeader(http.StatusOK)
+	res.checkChunked()
+	if res.chunked {
 		return nil, 0, nil
 	}
 	return f, remain, sender
